@@ -279,6 +279,9 @@ func (s *SUT) FaultOp(rng *rand.Rand) (Op, []Problem) {
 		}
 		if !s.Confirmed[b.Idx] && s.Confirmed[b.Parent] {
 			cs = append(cs, cand{kind: "confirm", blk: b.Idx})
+			if s.LedgerTip() >= 0 {
+				cs = append(cs, cand{kind: "receive", blk: b.Idx}) // the engine's path for peer blocks
+			}
 		}
 		if s.Confirmed[b.Idx] && b.Parent == tip && !s.PlayHazard(b.Idx) {
 			cs = append(cs, cand{kind: "play", blk: b.Idx})
@@ -319,6 +322,8 @@ func (s *SUT) FaultOp(rng *rand.Rand) (Op, []Problem) {
 			return n.State.Play(s.T.Blocks[c.blk].ID)
 		case "walk":
 			return n.Walk(s.T.Blocks[c.blk].ID, false)
+		case "receive":
+			return n.ProcBlock(s.T.Blocks[c.blk].Block)
 		default:
 			x := sn.CloneTx(c.tx)
 			x.Blockid = nil
@@ -361,6 +366,22 @@ func (s *SUT) FaultOp(rng *rand.Rand) (Op, []Problem) {
 			}
 			return op, nil
 		}
+	}
+	if c.kind == "receive" {
+		// a composite of several successful-or-failing steps (pending store, ledger confirmation,
+		// walk of the state, asynchronous pool re-admission): completed steps legitimately persist
+		// and a failure inside the re-admission is not reported; canon + twin auditors judge the result
+		before.world.Drop()
+		if s.N.Ledger.ExistBlock(s.T.Blocks[c.blk].ID) && !s.Confirmed[c.blk] {
+			s.Confirmed[c.blk] = true
+			s.Arrival = append(s.Arrival, c.blk)
+		}
+		if t := s.Tip(); t >= 0 {
+			for _, j := range s.T.Path(t) {
+				s.Applied[j] = true
+			}
+		}
+		return op, nil
 	}
 	if oerr == nil {
 		before.world.Drop()
